@@ -91,6 +91,29 @@ def rule_register(ck):
     return cb_attr
 
 
+def rule_wait_scope(ck):
+    """Class 'operation applied to a wider scope than the resource owned': the class reaps only pids it was asked about.
+    A wildcard wait (os.wait(), waitpid(-1/0, ..)) also reaps children whose Subprocess has not registered yet (or other
+    code's children) and their status is lost for good."""
+    n = 0
+    for fi in ck.repo.methods(F, CLS):
+        for c in q.calls(fi.node):
+            d = q.dotted(c.func) or ""
+            if d in ("os.wait", "os.wait3"):
+                n += 1
+                ck.ob("C42.reap", fi, c, False, "Subprocess never reaps with a wildcard wait (it would consume the exit status of children that are not registered yet)")
+            elif d in ("os.waitpid", "os.wait4", "os.waitid"):
+                n += 1
+                a0 = c.args[0] if c.args else None
+                try:
+                    v = q.fold(a0, {}) if a0 is not None else None
+                    wildcard = isinstance(v, int) and v <= 0
+                except q.NotFoldable:
+                    wildcard = False
+                ck.ob("C42.reap", fi, c, not wildcard, "waitpid is asked about one specific pid, not about 'any child' (pid <= 0)", construct="waitpid-scope " + q.unparse(c))
+    ck.floor("C42.reap", n, 1, "wait calls in Subprocess")
+
+
 def rule_sigchld(ck):
     fi = ck.func(F, CLS + ".initialize")
     hs = call_sites(fi, ".add_signal_handler")
@@ -279,27 +302,82 @@ def rule_decode(ck, cb_attr):
 
 def rule_wait_for_exit(ck):
     fi = ck.func(F, CLS + ".wait_for_exit")
-    nested = ck.repo.nested(fi)
-    if len(nested) != 1:
-        raise AnalysisError("wait_for_exit: expected exactly one nested callback")
-    cb = ck.use(nested[0])
-    ps = cb.params()
-    if len(ps) != 1:
-        raise AnalysisError("wait_for_exit callback does not take exactly the return code")
-    ret = ps[0]
     outer_params = [p for p in fi.params() if p != "self"]
     if len(outer_params) != 1:
         raise AnalysisError("wait_for_exit lost its raise_error parameter")
-    flag = outer_params[0]
+    flag_outer = outer_params[0]
     # future created locally, handed to the callback, returned
     futs = [p for st in own_nodes(fi.node) if isinstance(st, (ast.Assign, ast.AnnAssign)) and isinstance(st.value, ast.Call) and q.call_attr(st.value) in ("Future", "create_future") for p in q.assigned_paths(st)]
     if len(futs) != 1:
         raise AnalysisError("wait_for_exit does not create exactly one Future")
-    fut = futs[0]
+    fut_outer = futs[0]
     rets = [n for n in own_nodes(fi.node) if isinstance(n, ast.Return)]
-    ck.ob("C42.wait-for-exit", fi, rets[0] if rets else fi.node, len(rets) == 1 and q.dotted(rets[0].value) == fut, "wait_for_exit returns the future its callback settles")
-    reg = [c for c in q.find_calls(fi.node, "self.set_exit_callback") if len(c.args) == 1 and q.dotted(c.args[0]) == cb.name]
-    ck.ob("C42.wait-for-exit", fi, fi.node, len(reg) == 1, "the settling callback is registered through set_exit_callback", construct="callback-registered")
+    ck.ob("C42.wait-for-exit", fi, rets[0] if rets else fi.node, len(rets) == 1 and q.dotted(rets[0].value) == fut_outer, "wait_for_exit returns the future its callback settles")
+    regs = [c for c in q.find_calls(fi.node, "self.set_exit_callback") if len(c.args) == 1]
+    if not regs and not any(isinstance(c, ast.Call) and isinstance(c.func, ast.Attribute) and q.dotted(c.func.value) == "self" for c in q.calls(fi.node)):
+        # fully visible function without any self call: positively nothing registers a callback
+        ck.ob("C42.wait-for-exit", fi, fi.node, False, "wait_for_exit registers a settling callback through set_exit_callback (none is registered: the future is never settled)", construct="callback-registered")
+        return
+    if len(regs) != 1:
+        raise AnalysisError("wait_for_exit does not register exactly one callback through set_exit_callback")
+    handed = resolve_local(fi, regs[0].args[0])
+    # the callback: a nested def, or a lambda / functools.partial that forwards to a (static/class/instance) method
+    # of the class with the future and raise_error bound: the method is analysed exactly like the closure would be
+    cb = ret = flag = fut = None
+
+    def method_of(fexpr):
+        d = q.dotted(fexpr)
+        if d and "." in d and d.split(".")[0] in ("self", "cls", CLS) and ck.repo.has_func(F, CLS + "." + d.split(".")[-1]):
+            return ck.repo.func(F, CLS + "." + d.split(".")[-1])
+        return None
+
+    def bind(m, args, free_name=None):
+        """Map the method's parameters to (ret, flag, fut) from the argument expressions; unbound remainder = ret."""
+        mp = [p for p in m.params() if p not in ("self", "cls")]
+        if len(args) > len(mp):
+            raise AnalysisError("callback forwarding to %s passes too many arguments" % m.qualname)
+        r = f = fu = None
+        for pn, a in zip(mp, args):
+            d = q.dotted(a)
+            if d == flag_outer:
+                f = pn
+            elif d == fut_outer:
+                fu = pn
+            elif free_name is not None and d == free_name:
+                r = pn
+            else:
+                raise AnalysisError("callback forwarding to %s binds %s to something other than the future / raise_error / the return code" % (m.qualname, pn))
+        rest = mp[len(args):]
+        if r is None and len(rest) == 1:
+            r = rest[0]
+        return r, f, fu
+
+    if isinstance(handed, ast.Name):
+        nested = [n for n in ck.repo.nested(fi) if n.name == handed.id]
+        if len(nested) != 1:
+            raise AnalysisError("wait_for_exit: the registered callback %s is not a nested function" % handed.id)
+        cb = ck.use(nested[0])
+        ps = cb.params()
+        if len(ps) != 1:
+            raise AnalysisError("wait_for_exit callback does not take exactly the return code")
+        ret, flag, fut = ps[0], flag_outer, fut_outer
+    elif isinstance(handed, ast.Lambda) and isinstance(handed.body, ast.Call) and len(handed.args.args) == 1 and not handed.body.keywords:
+        m = method_of(handed.body.func)
+        if m is None:
+            raise AnalysisError("wait_for_exit: lambda callback does not forward to a method of %s" % CLS)
+        cb = ck.use(m)
+        ret, flag, fut = bind(m, handed.body.args, free_name=handed.args.args[0].arg)
+    elif isinstance(handed, ast.Call) and q.call_attr(handed) == "partial" and handed.args and not handed.keywords:
+        m = method_of(handed.args[0])
+        if m is None:
+            raise AnalysisError("wait_for_exit: partial callback does not forward to a method of %s" % CLS)
+        cb = ck.use(m)
+        ret, flag, fut = bind(m, handed.args[1:])
+    else:
+        raise AnalysisError("wait_for_exit: callback of unknown shape (%s)" % q.unparse(handed)[:60])
+    if None in (ret, flag, fut):
+        raise AnalysisError("wait_for_exit: cannot bind return code / raise_error / future in the callback %s" % cb.qualname)
+    ck.ob("C42.wait-for-exit", fi, regs[0], True, "the settling callback (%s) is registered through set_exit_callback" % cb.qualname, construct="callback-registered")
     ss = settle_sites(cb)
     ck.floor("C42.wait-for-exit", len(ss), 2, "settle sites in the callback")
     for node, c, p, kind in ss:
@@ -347,6 +425,7 @@ def run(ck):
     ck.rule("C42.callback-once", "the exit callback is consumed by take-and-clear, invoked once with the decoded return code, and _set_returncode is reached only from the reap path")
     ck.rule("C42.wait-for-exit", "wait_for_exit's callback settles the returned future exactly once: CalledProcessError(ret) iff ret != 0 and raise_error, else result ret")
     ck.rule("C42.settle", "the wait_for_exit future is settled only through the *_unless_cancelled helpers")
+    rule_wait_scope(ck)
     cb_attr = rule_register(ck)
     if cb_attr is None:
         cb_attr = "self._exit_callback"
@@ -424,10 +503,12 @@ MUTANTS = [
     ("WIFEXITED taken for WIFSIGNALED", _m("_set_returncode", replace_expr(lambda n: isinstance(n, ast.Call) and _src(n) == "os.WIFSIGNALED(status)", lambda n: parse_expr("os.WIFEXITED(status)"))), "C42.status-decoding"),
     ("_cleanup polls only while iterating the live table", _m("_cleanup", replace_expr(lambda n: isinstance(n, ast.Call) and isinstance(n.func, ast.Name) and n.func.id == "list", lambda n: n.args[0])), "C42.cleanup-all"),
     ("_cleanup stops after the first pid", _m("_cleanup", replace_stmt(lambda st: isinstance(st, ast.Expr) and "_try_cleanup_process" in _src(st), lambda st: [st, ast.Break()])), "C42.cleanup-all"),
+    ("poll with a wildcard pid", _m("_try_cleanup_process", replace_expr(lambda n: isinstance(n, ast.Call) and _src(n.func) == "os.waitpid", lambda n: parse_expr("os.waitpid(-1, os.WNOHANG)"))), "C42.reap"),
     ("blocking waitpid", _m("_try_cleanup_process", replace_expr(lambda n: isinstance(n, ast.Attribute) and n.attr == "WNOHANG", lambda n: ast.Constant(value=0))), "C42.reap"),
     ("still-running child is unregistered", _m("_try_cleanup_process", remove_stmts(lambda st: isinstance(st, ast.If) and "ret_pid == 0" in _src(st.test))), "C42.reap"),
     ("_set_returncode scheduled with the pid instead of the status", _m("_try_cleanup_process", replace_expr(lambda n: isinstance(n, ast.Name) and n.id == "status" and isinstance(n.ctx, ast.Load), lambda n: ast.Name(id="ret_pid", ctx=ast.Load()))), "C42.reap"),
     ("ChildProcessError escapes the poll", _m("_try_cleanup_process", replace_stmt(lambda st: isinstance(st, ast.Try), lambda st: list(st.body))), "C42.reap"),
+    ("wait_for_exit registers no callback (future never settled)", _m("wait_for_exit", remove_stmts(lambda st: isinstance(st, ast.Expr) and isinstance(st.value, ast.Call) and "set_exit_callback" in _src(st))), "C42.wait-for-exit"),
     ("wait_for_exit raises whenever raise_error is set or status is non-zero", _m("wait_for_exit", replace_expr(lambda n: isinstance(n, ast.BoolOp) and isinstance(n.op, ast.And) and "raise_error" in _src(n), lambda n: ast.BoolOp(op=ast.Or(), values=n.values))), "C42.wait-for-exit"),
     ("wait_for_exit ignores raise_error", _m("wait_for_exit", replace_expr(lambda n: isinstance(n, ast.BoolOp) and "raise_error" in _src(n), lambda n: n.values[0])), "C42.wait-for-exit"),
     ("wait_for_exit settles with raw set_result", _m("wait_for_exit", replace_expr(lambda n: isinstance(n, ast.Call) and _src(n.func) == "future_set_result_unless_cancelled", lambda n: parse_expr("future.set_result(ret)"))), "C42.settle"),
